@@ -139,7 +139,7 @@ def run(ctx):
     for w in U.load_corpus(PID):
         cases.append((w["profile"], [U.ev_from_json(e) for e in w["events"]]))
         meta.append({"kind": "corpus", "file": w["file"], "key": w.get("key")})
-    n = 2500 if ctx.thorough else 420
+    n = 2500 if ctx.thorough else 260
     for c in gen_cases(ctx, n):
         cases.append(c)
         meta.append({"kind": "generated"})
